@@ -16,7 +16,9 @@ for d in sorted(glob.glob(os.path.join(ROOT, "seeded", "*"))):
     summ = " ".join(str(am.get("summary", "")).split())[:230]
     needs = " ".join(str(am.get("needs", "")).split())[:200]
     det = "not detected"
-    if m.get("detected"):
+    if m.get("judged"):
+        det = "quiet, rightly: " + " ".join(str(m["judged"]).split())[:160]
+    if m.get("detected") and not m.get("judged"):
         det = "VIOLATION with failing input" if m.get("detected_with_failing_input") else "VIOLATION no-failing-input-found"
     rows.append("| %s | %s | %s | %s |" % (os.path.basename(d), summ.replace("|", "/"), needs.replace("|", "/"), det))
 table = ("### 10.6 Seeded changes\n\n"
